@@ -108,7 +108,7 @@ func init() {
 	register("C16", func(e *Env) {
 		renderPrelude()
 		e.perShard = 60
-		e.rep.Rule = "generated functions of 0-4 parameters whose bodies are if/return decision chains (flat, nested, with else branches, dead code after the return) over their parameters x argument tuples from {0,1,2,3}, called with literal arguments and with argument expressions that mention outer variables named like the function's own parameters (swapped), the result used emitted / tested / compared / in arithmetic / passed to a Go helper / stored; higher-order use (stored, passed as argument, called through a parameter) and recursion (fact, fib, sum); judged against a Go reference evaluation of the decision chain; distinct by (function, arguments, use)"
+		e.rep.Rule = "generated functions of 0-4 parameters whose bodies are if/return decision chains (flat, nested, with else branches, dead code after the return) over their parameters x argument tuples from {0,1,2,3}, called with literal arguments and with argument expressions that mention outer variables named like the function's own parameters (swapped), the result used emitted / tested / compared / in arithmetic / passed to a Go helper / stored; arguments that are themselves user-function calls (nested, after an earlier call); higher-order use (stored, passed as argument, called through a parameter) and recursion (fact, fib, sum, ackermann); judged against a Go reference evaluation of the decision chain; distinct by (function, arguments, use)"
 		judge := func(tag, tmpl, want string, binds []Bind) {
 			c := RCase{Tmpl: tmpl, Binds: append(binds, Bind{"id", vGo(107)})}
 			o := e.addRenderCase(tag, c)
@@ -177,6 +177,26 @@ func init() {
 				}
 			}
 		}
+		// arguments that are themselves calls of user functions (after an earlier call in the same render)
+		for i := 0; i < nf/3; i++ {
+			n := 2 + e.Rng.Intn(3)
+			f := genFn(e.Rng, n)
+			args := make([]int, n)
+			parts := make([]string, n)
+			for j := range args {
+				args[j] = e.Rng.Intn(4)
+				switch e.Rng.Intn(3) {
+				case 0:
+					parts[j] = fmt.Sprint(args[j])
+				case 1:
+					parts[j] = fmt.Sprintf("same(%d)", args[j])
+				default:
+					parts[j] = fmt.Sprintf("pick(9, same(%d))", args[j])
+				}
+			}
+			tm := f.src("f") + "<% let same = fn(z) { return z } %><% let pick = fn(a, b) { return b } %><%= same(7) %>|<%= f(" + strings.Join(parts, ", ") + ") %>|<%= pick(1, same(2)) %>"
+			judge("nested-args", tm, "7|"+sink16(f.eval(args))+"|2", nil)
+		}
 		// two generated one-parameter functions passed through the same higher-order call site
 		for i := 0; i < nf/4; i++ {
 			f1, f2 := genFn(e.Rng, 1), genFn(e.Rng, 1)
@@ -190,6 +210,8 @@ func init() {
 			{`<% let mk = fn(k) { return fn(j) { return j * 2 } } %><% let d = mk(1) %><%= d(4) %>`, "8"},
 			{`<% let lo = fn(a, b) { if (a < b) { return a } return b } %><% let hi = fn(a, b) { if (a < b) { return b } return a } %><% let apply = fn(g, a, b) { return g(a, b) } %><%= apply(lo, 3, 7) %>|<%= apply(hi, 3, 7) %>|<%= apply(lo, 3, 7) %>`, "3|7|3"},
 			{`<% let twice = fn(g, x) { return g(g(x)) } %><%= twice(fn(v) { return v + 1 }, 1) %>|<%= twice(fn(v) { return v * 3 }, 1) %>|<%= for (k) in [1, 2] { %><%= twice(fn(v) { return v + k }, 0) %>,<% } %>`, "3|9|2,4,"},
+			{`<% let ack = fn(m, n) { if (m == 0) { return n + 1 } if (n == 0) { return ack(m - 1, 1) } return ack(m - 1, ack(m, n - 1)) } %><%= ack(1, 2) %>|<%= ack(2, 1) %>|<%= ack(2, 2) %>`, "4|5|7"},
+			{`<% let inc = fn(x) { return x + 1 } %><% let dbl = fn(x) { return x * 2 } %><% let apply = fn(g, x) { return g(x) } %><%= inc(0) %>|<%= apply(inc, dbl(3)) %>|<%= apply(dbl, inc(dbl(2))) %>`, "1|7|10"},
 			{`<% let fact = fn(n) { if (n <= 1) { return 1 } return n * fact(n - 1) } %><%= fact(6) %>`, "720"},
 			{`<% let fib = fn(n) { if (n < 2) { return n } return fib(n - 1) + fib(n - 2) } %><%= fib(10) %>`, "55"},
 			{`<% let sum = fn(n) { if (n == 0) { return 0 } return n + sum(n - 1) } %><%= sum(20) %>`, "210"},
